@@ -138,7 +138,90 @@ def myokit_derivs(model, state=None, t=0.0):
     return model.evaluate_derivatives(state=state, inputs={"time": t}, ignore_errors=True)
 
 
+ODE_UNITS = [("mV", "mV"), ("ms", "ms"), ("mM", "mM"), ("pA", "pA"), ("nS", "nS"), ("mS", "mS")]
+RATE_UNITS = ["mV/ms", "mM/ms", "1/ms", "pA/ms", "mS"]
+
+
+def gen_ode_text(rng: random.Random):
+    """a hand-written .ode model with unit annotations: states and parameters declared with ScalarParam units, rate
+    equations with a unit comment of their own (the unit of the *rate*, as a modeller would write it)"""
+    ns = rng.randint(2, 3)
+    names = rng.sample(PLAIN[:8], ns)
+    su = [rng.choice(ODE_UNITS) for _ in names]
+    sv = [round(rng.uniform(-2, 2), 3) for _ in names]
+    pn = rng.sample(PLAIN[8:], 2)
+    pu = [rng.choice(ODE_UNITS) for _ in pn]
+    pv = [round(rng.uniform(0.2, 3), 3) for _ in pn]
+    comp = rng.choice(["membrane", "gate"])
+    lines = [f'states("{comp}", ' + ", ".join(f'{n}=ScalarParam({v}, unit="{u[0]}")' for n, u, v in zip(names, su, sv)) + ")",
+             f'parameters("{comp}", ' + ", ".join(f'{n}=ScalarParam({v}, unit="{u[0]}")' for n, u, v in zip(pn, pu, pv)) + ")",
+             f'expressions("{comp}")', f"i_tot = {pn[0]}*{names[0]} - {pn[1]}*{names[-1]}"]
+    for k, n in enumerate(names):
+        rhs = f"-i_tot + {names[(k + 1) % ns]}*{pn[k % 2]}" if k % 2 == 0 else f"({names[k - 1]} - {n})/{pn[0]}"
+        cm = ["", f" # {rng.choice(RATE_UNITS)}", f" # {su[k][0]}"][rng.randrange(3) if k else 1]
+        lines.append(f"d{n}_dt = {rhs}{cm}")
+    return {"kind": "ode-text", "text": "\n".join(lines) + "\n", "states": {n: (v, u[1]) for n, u, v in zip(names, su, sv)},
+            "params": {n: (v, u[1]) for n, u, v in zip(pn, pu, pv)}}
+
+
+def c15_ode_case(ctx: Ctx, case: dict):
+    """a model written in .ode text, exported to Myokit: every state and constant arrives with its value and its declared
+    unit (compared with Myokit's own reading of the unit text), and Myokit's derivatives equal the generated rhs"""
+    import myokit
+    from gotranx.myokit import gotran_to_myokit
+    ctx.case(case["text"], True, sample={"kind": "ode-text", "text": case["text"][:500]})
+    try:
+        ode = common.load(case["text"])
+    except Exception as ex:
+        ctx.count(f"ode_text_rejected/{type(ex).__name__}")
+        return
+    try:
+        back = gotran_to_myokit(ode)
+        back.validate()
+    except Exception as ex:
+        ctx.violate(f"C15/export-raises/{type(ex).__name__}/ode-text", f"gotran_to_myokit raised {type(ex).__name__}: {str(ex)[:100]}", case=case)
+        return
+    bvars = {v.name(): v for v in back.variables(deep=True)}
+    binit = dict(zip([v.name() for v in back.states()], back.initial_values(as_floats=True)))
+    for n, (val, unit) in case["states"].items():
+        if n not in binit:
+            ctx.violate("C15/export-state-missing/ode-text", f"state {n} is missing after export to Myokit", case=case)
+            return
+        if abs(binit[n] - val) > 1e-12 * max(1, abs(val)):
+            ctx.violate("C15/export-state-value/ode-text", f"state {n}: {val} exported as {binit[n]}", case=case)
+            return
+        if bvars[n].unit() != myokit.parse_unit(unit):
+            ctx.violate("C15/export-unit/ode-text", f"state {n} is declared in {unit!r} but the exported Myokit variable has unit {bvars[n].unit()}", case=case)
+            return
+    for n, (val, unit) in case["params"].items():
+        if n not in bvars:
+            ctx.violate("C15/export-constant-missing/ode-text", f"parameter {n} is missing after export to Myokit", case=case)
+            return
+        if abs(float(bvars[n].eval()) - val) > 1e-12 * max(1, abs(val)):
+            ctx.violate("C15/export-constant-value/ode-text", f"parameter {n}: {val} exported as {bvars[n].eval()}", case=case)
+            return
+        if bvars[n].unit() != myokit.parse_unit(unit):
+            ctx.violate("C15/export-unit/ode-text", f"parameter {n} is declared in {unit!r} but the exported Myokit variable has unit {bvars[n].unit()}", case=case)
+            return
+    try:
+        code = common.py_code(ode)
+        mod = common.exec_module(code)
+        bd = myokit_derivs(back, None, 0.0)
+        with np.errstate(all="ignore"):
+            got = mod.rhs(0.0, mod.init_state_values(), mod.init_parameter_values())
+        for v, w in zip(back.states(), bd):
+            g = got[mod.state_index(v.name())]
+            if np.isfinite(w) and not (abs(g - w) <= 1e-9 * max(1.0, abs(w))):
+                ctx.violate("C15/export-derivative-differs/ode-text", f"after export to Myokit d{v.name()}/dt = {w!r}, gotranx gives {g!r}", case=case)
+                return
+        ctx.count("ode_text_exports_compared")
+    except Exception as ex:
+        ctx.count(f"export_eval_raises/{type(ex).__name__}")
+
+
 def c15_case(ctx: Ctx, case: dict):
+    if case.get("kind") == "ode-text":
+        return c15_ode_case(ctx, case)
     import myokit
     import gotranx
     from gotranx.myokit import gotran_to_myokit, myokit_to_gotran
@@ -316,6 +399,10 @@ def c15_run(ctx: Ctx):
                 "dot(V) = -g * (V - 1.5) + w + engine.%s * 0.25\ndot(w) = (V * 2 - w) / 2.5\n") % (tn, tn)
         with common.time_limit(ctx, 60):
             c15_case(ctx, {"kind": "mmt-text", "text": text, "nested": "none", "special": f"timevar/{tn}"})
+    # models written in .ode text, exported to Myokit
+    for k in range(ctx.n(6, 60)):
+        with common.time_limit(ctx, 60):
+            c15_case(ctx, gen_ode_text(ctx.rng))
     for k in range(ctx.n(14, 200)):
         nested = ["none", "none", "unique", "repeated"][k % 4]
         text = gen_mmt(ctx.rng, nested, local_names=(k % 4 == 1))
